@@ -277,6 +277,18 @@ func (m *Model) checkC13(post []view, e, res string) []common.Violation {
 			}
 		}
 	}
+	if kind == "K" && len(m.pre) > 0 {
+		// a retry tick replays parked vertices of a valid history under the node's own long-lived context: it may admit, park
+		// again or give up, but it never takes an admitted vertex out of the ledger
+		i := atoi(strings.Split(e, ":")[1])
+		if i < len(m.pre) && i < len(post) {
+			for h := range m.pre[i].live {
+				if !post[i].has(h) {
+					out = append(out, viol("C13", "C13.same-ledger", "C13.admitted-vertex-removed-by-retry", fmt.Sprintf("node %d: the retry tick removed %s, which was in the ledger before", i, R.Name(h)), nil))
+				}
+			}
+		}
+	}
 	if kind == "D" && len(m.pre) > 0 {
 		p := strings.Split(e, ":")
 		i, k := atoi(p[1]), atoi(p[2])
